@@ -68,5 +68,7 @@ def located_error(
             isinstance(error_nodes, (list, tuple))
             and all(isinstance(node, Node) for node in error_nodes)
         ):
+            if isinstance(error_nodes, tuple):
+                error_nodes = list(error_nodes)
             nodes = error_nodes or nodes
     return GraphQLError(message, nodes, source, positions, path, original_error)
